@@ -159,7 +159,11 @@ GEO_INPUTS = {
     'Ambient Temperature': dict(ok=[('triangular', 10, 15, 20), ('normal', 15, 1)], edge=[('uniform', 40, 60)]),
     'Production Flow Rate per Well': dict(ok=[('uniform', 80, 120), ('lognormal', 4.6, 0.05)], edge=[]),
     'Circulation Pump Efficiency': dict(ok=[('uniform', 0.6, 0.9)], edge=[('normal', 1.0, 0.05)]),
-    'Plant Lifetime': dict(ok=[('binomial', 50, 0.6)], edge=[], discrete=True),
+    'Plant Lifetime': dict(ok=[('binomial', 50, 0.6), ('binomial', 3, 0.5)], edge=[], discrete=True),
+    # small discrete supports: identical sampled combinations recur within one run (and within one worker); a draw of 0 is
+    # outside the allowable range and fails that iteration
+    'Number of Production Wells': dict(ok=[('binomial', 3, 0.5), ('binomial', 4, 0.6)], edge=[], discrete=True),
+    'Number of Injection Wells': dict(ok=[('binomial', 2, 0.6), ('binomial', 3, 0.5)], edge=[], discrete=True),
     # names that are a strict prefix of another parameter line of the base inputs ('Inflation Rate During Construction',
     # 'Reservoir Volume Option'): whatever the driver does to build an iteration's input must not confuse the two
     'Inflation Rate': dict(ok=[('uniform', 0.01, 0.04), ('triangular', 0.015, 0.025, 0.035)], edge=[('uniform', 0.9, 1.1)]),
